@@ -73,7 +73,7 @@ Print Assumptions C02_reachable_states_tile.
     with 3 errors. *)
 Definition C02_example_text : text :=
   [35; 105; 102; 100; 101; 102; 32; 88; 10; 35; 101; 108; 115; 101; 10; 100; 101; 102; 32; 120; 32; 123; 32; 105; 110;
-   116; 32; 118; 32; 61; 32; 34; 97; 98; 99; 10; 64].
+   116; 32; 118; 32; 61; 32; 34; 97; 98; 99; 10; 64]%N.
 Example C02_nonvacuous :
   exists t errs st, parse_with 100 grammar_prog grammar_entry C02_example_text = ParseOk t errs st /\ (3 <= List.length errs)%nat.
 Proof. vm_compute. do 3 eexists. split; [reflexivity|]. repeat constructor. Qed.
